@@ -45,6 +45,10 @@ impl Diagnostic {
     /// Add a label of type 'primary'.
     pub fn primary(&mut self, span: impl HasSpan, message: String) -> &mut Self {
         let span = span.span();
+        if span.file_id.is_none() {
+            // a label without a source location (e.g. something defined by a mapfile) cannot be rendered
+            return self.note(message);
+        }
         self.imp.labels.push(CsLabel::primary(span.file_id, span).with_message(message));
         self
     }
@@ -52,6 +56,9 @@ impl Diagnostic {
     /// Add a label of type 'secondary'.
     pub fn secondary(&mut self, span: impl HasSpan, message: String) -> &mut Self {
         let span = span.span();
+        if span.file_id.is_none() {
+            return self.note(message);
+        }
         self.imp.labels.push(CsLabel::secondary(span.file_id, span).with_message(message));
         self
     }
